@@ -68,7 +68,15 @@ var NoopConfig = Config{
 type flagParser struct {
 	input string
 	cfg   Config
+	depth int // number of arrays and objects enclosing the value being parsed
 }
+
+// maxNesting limits how deep arrays and objects can be nested. The parser is
+// recursive: without a limit a value consisting of a few million '[' exhausts
+// the stack, which can not be recovered from.
+const maxNesting = 10000
+
+var errNestingTooDeep = fmt.Errorf("exceeded max nesting depth of %d", maxNesting)
 
 // stopSet definitions for handling unquoted strings
 const (
@@ -111,7 +119,7 @@ func Value(content string) (interface{}, error) {
 // In addition, top-level values can be separated by ',' to build arrays
 // without having to use [].
 func ValueWithConfig(content string, cfg Config) (interface{}, error) {
-	p := &flagParser{strings.TrimSpace(content), cfg}
+	p := &flagParser{input: strings.TrimSpace(content), cfg: cfg}
 	if err := p.validateConfig(); err != nil {
 		return nil, err
 	}
@@ -175,12 +183,24 @@ func (p *flagParser) parseValue(stopSet string) (interface{}, error) {
 	switch in[0] {
 	case '[':
 		if p.cfg.Array {
-			return p.parseArray()
+			if p.depth >= maxNesting {
+				return nil, errNestingTooDeep
+			}
+			p.depth++
+			v, err := p.parseArray()
+			p.depth--
+			return v, err
 		}
 		return p.parsePrimitive(stopSet)
 	case '{':
 		if p.cfg.Object {
-			return p.parseObj()
+			if p.depth >= maxNesting {
+				return nil, errNestingTooDeep
+			}
+			p.depth++
+			v, err := p.parseObj()
+			p.depth--
+			return v, err
 		}
 		return p.parsePrimitive(stopSet)
 	case '"':
